@@ -74,6 +74,14 @@ def cases(chk):
     # than one batch pending — a limit on what one upload carries shows only then
     yield "history", {"events": ["connect", "authed", "uploadError:0", "serverAsksKeys", "disconnected", "restart", "connect", "authed", "uploadResult:0",
                                  "disconnected", "connect", "authed"], "batch": 812, "threshold": 10}
+    # batch sizes at the small numbers, at round numbers and at every integer constant of the key management's current source, each +-1: a confirmed
+    # upload of that many keys leaves nothing pending, whatever the size (bookkeeping done in slices, pages, chunks)
+    from lib.probes import harvest_ints
+    sizes = set([1, 2, 5, 100, 101, 201]) | set(v + d for v in harvest_ints(["yowsup/axolotl/manager.py", "yowsup/layers/axolotl/layer_control.py"])
+                                                 for d in (-1, 0, 1) if 2 <= v + d <= 300)
+    for b in sorted(sizes):
+        yield "history", {"events": ["connect", "authed", "uploadResult:0", "disconnected", "connect", "authed", "restart", "connect", "authed"],
+                          "batch": b, "threshold": max(0, min(10, b - 1))}
     # the id encoding of uploads (prekey ids, signed prekey id, registration id) at every width boundary
     for k in range(0, 33):
         for n in sorted(set(x for x in ((1 << k) - 1, 1 << k, (1 << k) + 1, r.randrange(1 << k, 2 << k)) if 0 <= x < (1 << 32))):
@@ -105,7 +113,7 @@ def cases(chk):
 def nontrivial(stream, case):
     if stream == "idenc":
         return ("idenc", case["n"])
-    return (tuple(case["events"]), case.get("regid"), case.get("loglevel"))
+    return (tuple(case["events"]), case.get("regid"), case.get("loglevel"), case.get("batch"))
 
 
 class World(object):
